@@ -22,4 +22,9 @@ def install(engine):
     grp.check = lambda x: getattr(x, "pyvc_is_h5group", False)
     fil = LibFunc("h5py.File", _nope)
     fil.check = lambda x: getattr(x, "pyvc_is_h5file", False)
-    engine.lib["h5py"] = LibNS("h5py", {"Dataset": ds, "Group": grp, "File": fil})
+    def check_dtype(I, **kw):
+        # plain (non-enum) datasets only: the enum decoding branch is outside the modelled configurations
+        I.path.assumptions_used.add("h5py.check_dtype(enum=...) is None: plain datasets (enum decoding is covered by the bounded tier)")
+        return None
+    engine.lib["h5py"] = LibNS("h5py", {"Dataset": ds, "Group": grp, "File": fil,
+                                         "check_dtype": LibFunc("h5py.check_dtype", check_dtype)})
